@@ -291,8 +291,34 @@ class Case:
         """list of (modname, name, stub) callee contracts to bind for this case"""
         return []
 
-    def allow_model_limit(self):
-        return False
+    default_props = {
+        "no-raise": ("C01",),
+        "frame": ("C01",),
+        "post.one_flag_per_element": ("C01",),
+        "post.flag_in_alphabet": ("C01",),
+        "post.not_masked": ("C01",),
+    }
+    props = {}
+
+    def props_of(self, short):
+        """properties an obligation (by short name) belongs to"""
+        if short in self.props:
+            return self.props[short]
+        return self.default_props.get(short, ())
+
+    def all_props(self):
+        out = set()
+        for v in list(self.props.values()) + list(self.default_props.values()):
+            out.update(v)
+        return out
+
+    def regions(self, env):
+        """named input regions (known findings are scoped by these): name -> formula"""
+        return {}
+
+    def grid(self, tier, rng):
+        """concrete value dicts for the conformance run and the bounded stand-in"""
+        return []
 
 
 def _mod_of(T, case):
@@ -340,9 +366,13 @@ class ObResult:
         self.detail = ""
         self.model = None  # dict of concrete inputs for replay
         self.size = 0
+        self.sample = ""
+        self.short = ""
+        self.paths = 0
+        self.explore_seconds = 0.0
 
     def to_json(self):
-        return {k: getattr(self, k) for k in ("name", "kind", "status", "solver", "seconds", "queries", "detail", "model", "size")}
+        return {k: getattr(self, k) for k in ("name", "short", "kind", "status", "solver", "seconds", "queries", "detail", "model", "size", "sample", "paths", "explore_seconds")}
 
 
 def _path_assumptions(path, mk, goal_terms, extra_seeds=()):
@@ -433,13 +463,15 @@ def _refute_small(assumptions, neg_goal, mk, timeout_ms):
     return None
 
 
-def _check_valid(ob, path, mk, goal, timeout_ms, extra_seeds=()):
+def _check_valid(ob, path, mk, goal, timeout_ms, extra_seeds=(), extra=()):
     """prove goal on one path; updates ob; returns True when discharged"""
     if goal is True:
         return True
     goal = alg.lift(goal)
-    assumptions = _path_assumptions(path, mk, [goal], extra_seeds)
-    ob.size += sum(len(a.sexpr()) for a in assumptions[-3:]) if False else 0
+    assumptions = _path_assumptions(path, mk, [goal] + list(extra), extra_seeds) + list(extra)
+    if not ob.size:
+        ob.size = sum(len(a.sexpr()) for a in assumptions) + len(goal.sexpr())
+        ob.sample = "(assert (not %s))" % goal.sexpr()[:600]
     v, s = solve.prove(assumptions, goal, timeout_ms)
     _merge(ob, v)
     if v.status == "unsat":
@@ -458,8 +490,8 @@ def _check_valid(ob, path, mk, goal, timeout_ms, extra_seeds=()):
     return False
 
 
-def _check_infeasible(ob, path, mk, timeout_ms, why=""):
-    assumptions = _path_assumptions(path, mk, [])
+def _check_infeasible(ob, path, mk, timeout_ms, why="", extra=()):
+    assumptions = _path_assumptions(path, mk, list(extra)) + list(extra)
     v, s = solve.check_sat([alg.lift(a) for a in assumptions], timeout_ms)
     _merge(ob, v)
     if v.status == "unsat":
@@ -489,9 +521,15 @@ def _exc_site(exc):
     return site or "?"
 
 
-def verify_case(T, case, timeout_ms=None, clauses=None):
-    """-> list[ObResult].  `clauses`: restrict post clauses (property-specific checks)"""
+def verify_case(T, case, timeout_ms=None, want=None, exclude=None):
+    """-> list[ObResult].
+    want(short_name) -> bool selects the obligations of the property being checked (short names:
+    'no-raise', 'frame', 'raises.<clause>', 'post.<clause>'); covers and the canary always run.
+    exclude: dict short_name -> list of region names (known findings): the obligation is proved
+    under requires and not(region)."""
     timeout_ms = timeout_ms or solve.QUICK_TIMEOUT_MS
+    want = want or (lambda nm: True)
+    exclude = exclude or {}
     cname = case.name
     out = []
     try:
@@ -511,9 +549,24 @@ def verify_case(T, case, timeout_ms=None, clauses=None):
     rets = [p for p in paths if not p.raised]
     raising = [p for p in paths if p.raised]
 
+    def excl(short, penv):
+        """extra assumptions: outside every excluded region of this obligation"""
+        names = exclude.get(short, [])
+        if not names:
+            return []
+        regs = case.regions(penv)
+        return [alg.lift(alg.not_(regs[r])) for r in names]
+
+    def mkob(short, kind):
+        ob = ObResult("%s:%s" % (cname, short), kind)
+        ob.short = short
+        if exclude.get(short):
+            ob.detail = "proved outside known-finding region(s) %s;" % ",".join(exclude[short])
+        return ob
+
     # ---- raises clauses and no-raise
-    ob_nr = ObResult(cname + ":no-raise", "no-raise")
-    ob_ml = ObResult(cname + ":within-number-model", "model-limit")
+    ob_nr = mkob("no-raise", "no-raise")
+    ob_ml = mkob("within-number-model", "model-limit")
     declared = {}
     for p in raising:
         penv = p.env[0]
@@ -527,26 +580,36 @@ def verify_case(T, case, timeout_ms=None, clauses=None):
         matched = [(E, nm, cond) for (E, nm, cond) in rcl if isinstance(p.value, E)]
         if matched:
             E, nm, cond = matched[0]
-            ob = declared.setdefault(nm + ".only-when", ObResult("%s:raises.%s.only-when" % (cname, nm), "raises"))
+            short = "raises.%s.only-when" % nm
+            if not want("raises." + nm):
+                continue
+            ob = declared.setdefault(short, mkob(short, "raises"))
             if ob.status == "discharged":
-                _check_valid(ob, p, mk, cond, timeout_ms)
+                _check_valid(ob, p, mk, cond, timeout_ms, extra=excl(short, penv))
             continue
-        if ob_nr.status == "discharged":
-            _check_infeasible(ob_nr, p, mk, timeout_ms, "%s(%s) at %s" % (type(p.value).__name__, str(p.value)[:80], _exc_site(p.value)))
-    out.append(ob_nr)
+        if want("no-raise") and ob_nr.status == "discharged":
+            _check_infeasible(ob_nr, p, mk, timeout_ms, "%s(%s) at %s" % (type(p.value).__name__, str(p.value)[:80], _exc_site(p.value)), extra=excl("no-raise", penv))
+    if want("no-raise"):
+        ob_nr.queries = max(ob_nr.queries, 1)
+        out.append(ob_nr)
     if ob_ml.queries:
         out.append(ob_ml)
     for (E, nm, cond) in case.raises(env):
-        ob = declared.setdefault(nm + ".only-when", ObResult("%s:raises.%s.only-when" % (cname, nm), "raises"))
-        ob2 = ObResult("%s:raises.%s.whenever" % (cname, nm), "raises")
+        if not want("raises." + nm):
+            continue
+        short = "raises.%s.only-when" % nm
+        declared.setdefault(short, mkob(short, "raises"))
+        short2 = "raises.%s.whenever" % nm
+        ob2 = mkob(short2, "raises")
         for p in rets:
             (E2, nm2, cond2) = [c for c in case.raises(p.env[0]) if c[1] == nm][0]
             if ob2.status != "discharged":
                 break
-            _check_valid(ob2, p, mk, alg.not_(cond2), timeout_ms)
+            _check_valid(ob2, p, mk, alg.not_(cond2), timeout_ms, extra=excl(short2, p.env[0]))
+        ob2.queries = max(ob2.queries, 1)
         out.append(ob2)
         # cover: the clause is reachable through a raising path
-        obc = ObResult("%s:cover.raises.%s" % (cname, nm), "cover")
+        obc = mkob("cover.raises.%s" % nm, "cover")
         ok = False
         for p in raising:
             if isinstance(p.value, E):
@@ -559,18 +622,21 @@ def verify_case(T, case, timeout_ms=None, clauses=None):
             obc.status = "error"
             obc.detail = "raises clause %s is never reached: vacuous" % nm
         out.append(obc)
+    for ob in declared.values():
+        ob.queries = max(ob.queries, 1)
     out.extend(declared.values())
 
     # ---- frame
-    ob_fr = ObResult(cname + ":frame", "frame")
-    for p in paths:
-        if any(n[0] == "frame-write" for n in p.notes) and ob_fr.status == "discharged":
-            _check_infeasible(ob_fr, p, mk, timeout_ms, "write to argument buffer %s" % [n[1] for n in p.notes if n[0] == "frame-write"])
-    ob_fr.queries = max(ob_fr.queries, 1)
-    out.append(ob_fr)
+    if want("frame"):
+        ob_fr = mkob("frame", "frame")
+        for p in paths:
+            if any(n[0] == "frame-write" for n in p.notes) and ob_fr.status == "discharged":
+                _check_infeasible(ob_fr, p, mk, timeout_ms, "write to argument buffer %s" % [n[1] for n in p.notes if n[0] == "frame-write"])
+        ob_fr.queries = max(ob_fr.queries, 1)
+        out.append(ob_fr)
 
     # ---- cover: some returning path is feasible
-    obc = ObResult(cname + ":cover.returns", "cover")
+    obc = mkob("cover.returns", "cover")
     ok = False
     for p in rets:
         v, s = solve.check_sat([alg.lift(a) for a in _path_assumptions(p, mk, [])], timeout_ms)
@@ -586,27 +652,31 @@ def verify_case(T, case, timeout_ms=None, clauses=None):
     # ---- postconditions
     obs = {}
     canary_refuted = False
+    any_array = False
     for p in rets:
         penv = p.env[0]
         res = Res(p.value)
         glob = case.post_global(penv, res)
         for nm, f in glob.items():
-            if clauses is not None and nm not in clauses:
+            short = "post." + nm
+            if not want(short):
                 continue
-            ob = obs.setdefault(nm, ObResult("%s:post.%s" % (cname, nm), "post"))
+            ob = obs.setdefault(nm, mkob(short, "post"))
             if ob.status == "discharged":
-                _check_valid(ob, p, mk, f, timeout_ms)
+                _check_valid(ob, p, mk, f, timeout_ms, extra=excl(short, penv))
         if not res.is_array:
             continue
+        any_array = True
         k = z3.Int("k!post")
         seeds = [alg.add(k, o) for o in case.index_offsets]
         inr = in_range(k, res.n)
         for nm, f in case.post(penv, res, k).items():
-            if clauses is not None and nm not in clauses:
+            short = "post." + nm
+            if not want(short):
                 continue
-            ob = obs.setdefault(nm, ObResult("%s:post.%s" % (cname, nm), "post"))
+            ob = obs.setdefault(nm, mkob(short, "post"))
             if ob.status == "discharged":
-                _check_valid(ob, p, mk, alg.implies(inr, f), timeout_ms, seeds)
+                _check_valid(ob, p, mk, alg.implies(inr, f), timeout_ms, seeds, extra=excl(short, penv))
         if not canary_refuted:
             cn = case.canary(penv, res, k)
             if cn is not None:
@@ -614,10 +684,12 @@ def verify_case(T, case, timeout_ms=None, clauses=None):
                 v, s = solve.prove(assumptions + [alg.lift(inr)], cn, timeout_ms)
                 if v.status == "sat":
                     canary_refuted = True
+    for ob in obs.values():
+        ob.queries = max(ob.queries, 1)
     out.extend(obs.values())
-    obk = ObResult(cname + ":canary", "canary")
+    obk = mkob("canary", "canary")
     obk.queries = 1
-    if rets and any(Res(p.value).is_array for p in rets) and not canary_refuted:
+    if any_array and not canary_refuted:
         obk.status = "error"
         obk.detail = "the deliberately false clause was not refuted: the encoding is vacuous"
     out.append(obk)
